@@ -529,9 +529,12 @@ class RealizeMemrefCasts(RewritePattern):
         # insert "copy to" for first use as input
         # walk parent op in order to find first use as input
         assert op.parent
+        first_use: Operation | None = None
         for use_op in op.parent.walk():
             if use_op not in uses:
                 continue
+            if first_use is None:
+                first_use = use_op
             # check if input
             is_input = False
             if isinstance(use_op, linalg.GenericOp):
@@ -542,7 +545,13 @@ class RealizeMemrefCasts(RewritePattern):
             else:
                 is_input = True
             if is_input:
-                # insert copy op
+                # insert copy op; if the value is written before it is first read,
+                # the copy has to come before that writer (at the nesting level of
+                # the cast), not between the writer and the reader
+                if first_use is not use_op:
+                    use_op = first_use
+                    while use_op.parent_block() is not op.parent and (parent_op := use_op.parent_op()) is not None:
+                        use_op = parent_op
                 copy_op = memref.CopyOp(source_op.source, op.dest)
                 rewriter.insert_op(copy_op, InsertPoint.before(use_op))
                 break
